@@ -1,0 +1,33 @@
+//go:build verif
+
+// Contracts for the deductive verification in /verif (govc). Comment-only:
+// this file declares nothing and is compiled only with -tags verif.
+
+package gocql
+
+// ---------------------------------------------------------------------------
+// frame.go: primitive readers (CQL native protocol §3 "Notations")
+// ---------------------------------------------------------------------------
+
+//@ func readInt
+//@   props C04 C05
+//@   requires len(p) >= 4
+//@   ensures result == int32(be32(p, 0))
+
+//@ func (f *framer) readByte
+//@   props C04 C05
+//@   modifies f.buf
+//@   ensures soft_panic() == (old(len(f.buf)) < 1)
+//@   ensures !soft_panic() ==> result == old(f.buf[0]) && f.buf == old(f.buf[1:])
+
+//@ func (f *framer) readInt
+//@   props C04 C05
+//@   modifies f.buf
+//@   ensures soft_panic() == (old(len(f.buf)) < 4)
+//@   ensures !soft_panic() ==> n == int(int32(be32(old(f.buf), 0))) && f.buf == old(f.buf[4:])
+
+//@ func (f *framer) readShort
+//@   props C04 C05
+//@   modifies f.buf
+//@   ensures soft_panic() == (old(len(f.buf)) < 2)
+//@   ensures !soft_panic() ==> n == be16(old(f.buf), 0) && f.buf == old(f.buf[2:])
